@@ -5,6 +5,7 @@
 #include "ccl/rslang/RSErrorCodes.hpp"
 
 #include <functional>
+#include <limits>
 #include <optional>
 
 namespace ccl::rslang::detail {
@@ -44,6 +45,9 @@ public:
 struct ParserState {
   //! Maximum nesting of the syntax tree: consumers of the tree are recursive
   static constexpr int32_t MAX_TREE_DEPTH = 1000;
+  //! Maximum count of children of a node and of indices of a token: both are counted by Index,
+  //  consumers of the tree address components of a tuple by the count shifted by Typification::PR_START
+  static constexpr int32_t MAX_NODE_WIDTH = std::numeric_limits<Index>::max() - 1;
 
   meta::UniqueCPPtr<SyntaxTree> parsedTree{ nullptr };
   int32_t currentPosition{ 0 };
